@@ -189,10 +189,12 @@ Definition parent_of (c : cell) (parent : option nat) (frac : Z) : bres (option 
               end
   end.
 
+(* repaired (fixes/C15-explicit-seg-id-zero.patch): `if seg_id is not None:` - every explicit id, 0 included, is
+   honoured when free and refused when in use.  As shipped: `if seg_id:` - an explicit 0 counted as "not given". *)
 Definition choose_id (fx : bool) (c : cell) (seg_id : option Z) : bres Z :=
   match seg_id with
-  | Some z => if Z.eqb z 0 then BRet (auto_id fx (ids c))           (* `if seg_id:` *)
-              else if fx && memZ z (ids c) then BErr BDupId else BRet z
+  | Some z => if fx then (if memZ z (ids c) then BErr BDupId else BRet z)
+              else if Z.eqb z 0 then BRet (auto_id fx (ids c)) else BRet z
   | None => BRet (auto_id fx (ids c))
   end.
 
@@ -587,6 +589,7 @@ Definition init_of (factory : bool) : cell := if factory then init_factory else 
 
 (* asking for an id that is in use, on the finished cell: add_segment(None, dist, seg_id=z, parent=segments[0],
    use_convention=False, optimise_segment_groups=False); a refused call changes nothing *)
+(* (every id, 0 included) *)
 Definition probe (c : cell) (z : Z) : ostep :=
   match add_segment true c false (Some z) None (Some 0%nat) 4 None false None false false with
   | BRet _ => OOtherErr
